@@ -45,6 +45,34 @@ Definition e_f64 : Elem := {|
   e_of := fun u => match u with UN n => if (n <? 2 ^ 64)%N then Some n else None | _ => None end;
   e_to := UN; e_eqb := f64_eqb; e_sz := 8%N; e_cmp := None |}.
 
+(** two's-complement integers (i8 .. i128, isize, Wrapping<_>): they travel as their bit pattern; Rust orders them
+    by the signed value, not by the pattern, so the model claims no order for them *)
+Definition e_bits (bits : N) : Elem := {|
+  e_ty := N;
+  e_of := fun u => match u with UN n => if (n <? 2 ^ bits)%N then Some n else None | _ => None end;
+  e_to := UN; e_eqb := N.eqb; e_sz := (bits / 8)%N; e_cmp := None |}.
+Definition e_bool : Elem := {|
+  e_ty := N;
+  e_of := fun u => match u with UN n => if (n <? 2)%N then Some n else None | _ => None end;
+  e_to := UN; e_eqb := N.eqb; e_sz := 1%N; e_cmp := Some N.compare |}.
+(** [char]: Unicode scalar values, ordered by code point *)
+Definition e_char : Elem := {|
+  e_ty := N;
+  e_of := fun u => match u with
+                   | UN n => if ((n <? 1114112) && negb ((55296 <=? n) && (n <=? 57343)))%N then Some n else None
+                   | _ => None end;
+  e_to := UN; e_eqb := N.eqb; e_sz := 4%N; e_cmp := Some N.compare |}.
+(** IEEE-754 binary32 [==] on bit patterns *)
+Definition f32_eqb (a b : N) : bool :=
+  let nan x := ((N.land (N.shiftr x 23) 255 =? 255) && negb (N.land x (2 ^ 23 - 1) =? 0))%N in
+  if nan a || nan b then false
+  else if (N.land a (2 ^ 31 - 1) =? 0)%N && (N.land b (2 ^ 31 - 1) =? 0)%N then true
+  else (a =? b)%N.
+Definition e_f32 : Elem := {|
+  e_ty := N;
+  e_of := fun u => match u with UN n => if (n <? 2 ^ 32)%N then Some n else None | _ => None end;
+  e_to := UN; e_eqb := f32_eqb; e_sz := 4%N; e_cmp := None |}.
+
 Definition list_eqb {A} (eqb : A -> A -> bool) : list A -> list A -> bool :=
   fix go l m := match l, m with
                 | [], [] => true
